@@ -116,6 +116,10 @@ impl Gen {
         json!({"t": "float", "bits": jbytes(&bits.to_be_bytes())})
     }
     pub fn label(&mut self) -> J {
+        if self.coin(10) {
+            // a registered (non-typed) header / key parameter label
+            return jint(*self.pick(&[9i128, 10, 32, 33, 34, 35, 256, 257, -1, -2, -3, -4, 8, 38, 39, 40]));
+        }
         if self.coin(25) {
             jtext(&self.text())
         } else {
